@@ -2,6 +2,7 @@ import XzVerif.Spec.DictCap
 import XzVerif.Model.DictCap
 import XzVerif.Gen.Tables
 import XzVerif.Proofs.DictCap
+import XzVerif.Proofs.GoSrcXz
 /-
   C18 — Declared LZMA2 dictionary size is the smallest representable one ≥ the capacity.
 
@@ -46,5 +47,44 @@ theorem encode_samples_agree :
 
 /-- non-vacuity: a capacity strictly between two representable sizes -/
 example : Model.encodeDictCap 5000 = 1 ∧ Spec.dictSize 1 = 6144 ∧ Spec.dictSize 0 < 5000 := by decide
+
+/-! ### From the SOURCE: the regenerated translation of lzma/header2.go (Gen/GoSrc.lean)
+
+  `EncodeDictCap` / `DecodeDictCap` as written in Go — byte arithmetic for the codes, a signed 64-bit comparison of the
+  capacity, the shift expression of `decodeDictCap` — re-translated on every run; so the statements of this property
+  hold of what the source says, for EVERY capacity, not only of a hand model tied by a sweep. -/
+
+/-- the whole property, for the source: for every capacity 1 ≤ n ≤ 2^32 − 1 `EncodeDictCap(n)` terminates (loop bound
+    never reached), returns a code ≤ 40 whose size is ≥ n, and no smaller code has a size ≥ n -/
+theorem C18_source_encode (n : Nat) (h1 : 1 ≤ n) (h2 : n ≤ 2 ^ 32 - 1) (fuel : Nat) (hf : 8 ≤ fuel) :
+    ∃ c : BitVec 8, GoSrc.EncodeDictCap fuel (BitVec.ofNat 64 n) = Go.Res.ok c ∧
+      c.toNat ≤ 40 ∧ n ≤ Spec.dictSize c.toNat ∧ ∀ c', c' ≤ 40 → n ≤ Spec.dictSize c' → c.toNat ≤ c' := by
+  have hn : (BitVec.ofNat 64 n).toNat = n := by
+    simp only [BitVec.toNat_ofNat]; omega
+  have hs := GoSrcP.EncodeDictCap_spec (BitVec.ofNat 64 n) (by omega) fuel hf
+  rw [hn] at hs
+  obtain ⟨ha, hb, hc⟩ := Proofs.DictCap.encode_least n h1 h2
+  refine ⟨_, hs, ?_⟩
+  have hm : (BitVec.ofNat 8 (Model.encodeDictCap n)).toNat = Model.encodeDictCap n := by
+    simp only [BitVec.toNat_ofNat]
+    have : Model.encodeDictCap n ≤ 40 := ha
+    omega
+  rw [hm]
+  exact ⟨ha, hb, hc⟩
+
+/-- `DecodeDictCap` of the source accepts exactly the codes 0 … 40 with the format's sizes and rejects every other byte -/
+theorem C18_source_decode (c : BitVec 8) :
+    match Spec.dictSizeOfByte c.toNat with
+    | some n => GoSrc.DecodeDictCap c = (BitVec.ofNat 64 n, Go.Err.nil)
+    | none => ∃ e, GoSrc.DecodeDictCap c = (0#64, e) ∧ e ≠ Go.Err.nil := by
+  have h := GoSrcP.DecodeDictCap_spec c
+  have hm : Model.decodeDictCap c.toNat = Spec.dictSizeOfByte c.toNat := by
+    have := congrArg (fun l => l.getD c.toNat none) (decode_model_is_table.trans decode_table_is_spec)
+    have hc : c.toNat < 256 := c.isLt
+    simpa [List.getD, hc] using this
+  rw [hm] at h
+  exact h
+
+theorem C18_source_translation_complete : GoSrc.failures = [] := by decide
 
 end Props.C18
